@@ -126,7 +126,7 @@ def render_stil(design, markers, pi_order, po_order, patterns, name_style='plain
         out.append(f'   "pattern {i}": Call "load_unload" {{')
         out += (si_lines + so_lines) if layout == 'si_first' else (so_lines + si_lines)
         out.append('   }')
-        if loc or p.get('launch_pi') is not None:
+        if p.get('launch_pi') is not None:
             ln, cn = [('allclock_launch', 'allclock_capture'), ('multiclock_launch', 'allclock_launch_capture'), ('x_launch', 'y_launch_z_capture')][callnames % 3]
             out.append(f'   Call "{ln}" {{\n      "_pi"={wrap(p["launch_pi"])}; }}')
             out.append(f'   Call "{cn}" {{\n      "_pi"={wrap(p["capture_pi"])}; "_po"={wrap(p["capture_po"])}; }}')
@@ -207,10 +207,11 @@ def stil_case(res, case):
                 res.violation(key + '/loc-shape', case, f'tests_loc() shape {got.shape}\n{text}')
             else:
                 for i, p in enumerate(patterns):
-                    pulses = 'P' in p['launch_pi'] and 'P' in p['capture_pi']
+                    has_launch = p.get('launch_pi') is not None      # a single-cycle pattern inside a launch-on-capture set holds the loaded state
+                    pulses = has_launch and 'P' in p['launch_pi'] and 'P' in p['capture_pi']
                     # loaded state after inversion
                     loaded = {n: int(exp_t[pos[n], i]) for ch in d.chains for n in ch}
-                    launch_pi = {n: CH[p['launch_pi'][k]] for k, n in enumerate(pi_order)}
+                    launch_pi = {n: CH[(p['launch_pi'] if has_launch else p['capture_pi'])[k]] for k, n in enumerate(pi_order)}
                     cap_pi = {n: CH[p['capture_pi'][k]] for k, n in enumerate(pi_order)}
                     # reference next state from the loaded state and the launch inputs (2-valued where known)
                     assign = {}
@@ -226,7 +227,8 @@ def stil_case(res, case):
                         exp = {(0, 0): 0, (1, 1): 3, (0, 1): 5, (1, 0): 6}[(1 if loaded[n] == O else 0, nxt)]
                         g = int(got[pos[n], i])
                         if fully and g != exp:
-                            res.violation(key + '/loc-ff', case, f'tests_loc()[{n}, pattern {i}] = {ref.CHARS[g]} expected {ref.CHARS[exp]} (loaded {ref.CHARS[loaded[n]]}, next state {nxt}, pulses {pulses})\n{text}')
+                            res.violation(key + '/loc-ff', case, f'tests_loc()[{n}, pattern {i}] = {ref.CHARS[g]} expected {ref.CHARS[exp]} (loaded {ref.CHARS[loaded[n]]}, next state {nxt}, pulses {pulses}, launch call {has_launch})\n{text}')
+                    if not has_launch: res.count('loc_single_cycle_patterns')
                     if pulses:
                         for n in pi_order:
                             a, b2 = launch_pi[n], cap_pi[n]
@@ -350,6 +352,18 @@ def run_design(res, d, tier, seed, shard=0, nshards=1):
                     lp.append(q)
                 stil_case(res, case(markers, d.pis, d.pos, lp, loc=True))
                 res.count('three_pattern_sets')
+        # launch-on-capture sets that mix two-cycle patterns with single-cycle ones (capture call only), in both orders
+        def two_cycle(bits):
+            q = base_pattern(bits)
+            q['launch_pi'] = ''.join('P' if n == 'clk' else ('0' if n == 'se' else '01'[(j + bits) % 2]) for j, n in enumerate(d.pis))
+            q['capture_pi'] = ''.join('P' if n == 'clk' else ('0' if n == 'se' else '01'[(j + bits + 1) % 2]) for j, n in enumerate(d.pis))
+            return q
+        def one_cycle(bits):
+            q = base_pattern(bits)
+            q['capture_pi'] = ''.join('P' if n == 'clk' else ('0' if n == 'se' else '01'[(j + bits) % 2]) for j, n in enumerate(d.pis))
+            return q
+        stil_case(res, case(markers, d.pis, d.pos, [two_cycle(0), one_cycle(1), two_cycle(2), one_cycle(3)], loc=True))
+        stil_case(res, case(markers, d.pis, d.pos, [one_cycle(2), two_cycle(1), one_cycle(0)], loc=True))
         # launch-on-capture
         clk = None
         for pulses in ((True, True), (True, False), (False, True), (False, False)):
@@ -381,6 +395,7 @@ def replay(case):
 
 
 def finish(agg, tier):
+    if not agg.counters.get('loc_single_cycle_patterns'): raise common.HarnessError('vacuity guard: no single-cycle pattern in a launch-on-capture set')
     need = ['cases', 'cases_with_markers', 'tests_cases', 'loc_cases']
     missing = [k for k in need if not agg.counters.get(k)]
     if missing: raise common.HarnessError(f'vacuity guard: {missing} zero')
